@@ -11,7 +11,7 @@ def make(seed, tier, kind, index):
 
 def sizes(tier):
     from sim import gen as GEN
-    n_sweep = len(GEN.c05_census(tier)) + 1      # one constructor-clause sweep per census class (+ the probe class)
+    n_sweep = len(GEN.c05_census(tier, sweep=True)) + 1      # one constructor-clause sweep per census class, heavy ones included (+ the probe class)
     if tier == "quick":
         return n_sweep, 900, 1500.0
     return n_sweep, 6000, 3 * 3600.0
